@@ -397,6 +397,8 @@ Definition all3 (n1 n2 n3 : nat) (f : nat -> nat -> nat -> bool) : bool :=
 (* one run of the real code: the forced kernel choices, the numba thread count, the kernels logged by the hook *)
 Record krun := { kr_choices : list bool; kr_threads : nat; kr_log : list bool }.
 
+Definition distinct_choices (rs : list krun) : list (list bool) := nodup (list_eq_dec Bool.bool_dec) (map kr_choices rs).
+
 (* --------------------------------------------------------------- partitioned distinguishers *)
 (* runs with bit-identical observations are grouped by the harness *)
 Record pobs := {
@@ -424,16 +426,18 @@ Definition exact_regime (p : prec) (bs : list (list crow)) : bool := sum_sq_z (a
 
 Definition uq (p : prec) : Qc := Q2Qc (uround p).
 (* error factor of a float accumulation of n terms, with slack *)
-Definition kfac (n : nat) : Qc := (nat_q n + nat_q n + qz 32)%Qc.
+Definition kfac (n : nat) : Qc := (qz 4 * nat_q n + qz 64)%Qc.
 
 Definition pfinal (S W P : nat) (cs : list bool) (bs : list pbatch) : pmem :=
   run_batches S W P idq sqq sqq zero_junk cs bs (fun _ => Q2Qc 0).
 
-(* the model with these choices = the spec total, on every cell of the accumulators *)
+(* the model with these choices = the spec total, on the cells of the accumulators (of the first 4 samples when there
+   are more: every query walks all the statements of all the iterations; the equality is a theorem anyway) *)
+Definition cap4 (n : nat) : nat := Nat.min n 4.
 Definition pmodel_is_spec (S W P : nat) (cs : list bool) (bs : list pbatch) : bool :=
   let m := pfinal S W P cs bs in
   let sp := spec_total S W P idq sqq bs in
-  all3 S W P (fun s w p => Qc_eq_bool (m (CSum s w p)) (sp (CSum s w p)) && Qc_eq_bool (m (CSq s w p)) (sp (CSq s w p)))
+  all3 (cap4 S) W P (fun s w p => Qc_eq_bool (m (CSum s w p)) (sp (CSum s w p)) && Qc_eq_bool (m (CSq s w p)) (sp (CSq s w p)))
   && all2 W P (fun w p => Qc_eq_bool (m (CCnt w p)) (sp (CCnt w p))).
 
 (* magnitudes for the tolerances: sum over ALL traces of |x| and x^2 at sample s *)
@@ -444,7 +448,7 @@ Definition col_sq (e : Z) (rows : list crow) (s : nat) : Qc := qsum (map (fun r 
    style of Partitioned.obs_ok with the factor kfac *)
 Definition pres_ok (p : prec) (m : Partitioned.metric) (n : nat) (ex : bool) (gs : list (list Qc)) (v : fval) : bool :=
   match Partitioned.spec_metric m gs with
-  | None => if ex then is_nan v else negb (is_inf v)
+  | None => negb (is_inf v)          (* NaN for undefined is C04's subject; never an infinity *)
   | Some val =>
       let '(num, den, snum, sden) := Partitioned.spec_parts m gs in
       let u := (kfac n * uq p)%Qc in
@@ -465,12 +469,15 @@ Definition pobs_ok (c : pcase) (S W P : nat) (ex : bool) (bs : list pbatch) (o :
   let sp := spec_total S W P idq sqq bs in
   let tol := (kfac n * uq (pc_prec c))%Qc in
   negb (match po_runs o with [] => true | _ => false end)
-  && forallb (fun r => krun_ok P (length bs) r && pmodel_is_spec S W P (kr_choices r) bs) (po_runs o)
+  && forallb (krun_ok P (length bs)) (po_runs o)
+  && forallb (fun cs => pmodel_is_spec S W P cs bs) (distinct_choices (po_runs o))
   && shape2 (po_result o) W S && shape2 (po_cnt o) W P && shape3 (po_sum o) S W P && shape3 (po_sq o) S W P
   && all2 W P (fun w p => fv_exact (f2 (po_cnt o) w p) (sp (CCnt w p)))
   && all3 S W P (fun s w p => fv_ok ex (tol * col_abs e rows s)%Qc (f3 (po_sum o) s w p) (sp (CSum s w p))
                               && fv_ok ex (tol * col_sq e rows s)%Qc (f3 (po_sq o) s w p) (sp (CSq s w p)))
-  && all2 W S (fun w s =>
+  (* compute() against the definition, at the first 4 samples when there are more (the definition recomputes the class
+     means per element: quadratic in the number of traces; all cells of the accumulators are compared above) *)
+  && all2 W (cap4 S) (fun w s =>
        let erows := map (fun r => (nth w (snd r) 0, scale_q e (nth s (fst r) 0))) rows in
        let gs := Partitioned.groups (nodup Z.eq_dec parts) erows in
        let tbl := map (fun p => (sp (CCnt w p), sp (CSum s w p), sp (CSq s w p))) (seq 0 P) in
@@ -536,8 +543,8 @@ Definition tmodel_is_spec (S P : nat) (cs : list bool) (bs : list tbatch) : bool
   let m := tfinal S P cs bs in
   let sp := tspec_total S P idq bs in
   forallb (fun p => Qc_eq_bool (m (TCnt p)) (sp (TCnt p))) (seq 0 P)
-  && all2 P S (fun p s => Qc_eq_bool (m (TExi p s)) (sp (TExi p s)))
-  && all3 P S S (fun p i j => Qc_eq_bool (m (TExxi p i j)) (sp (TExxi p i j))).
+  && all2 P (cap4 S) (fun p s => Qc_eq_bool (m (TExi p s)) (sp (TExi p s)))
+  && all3 P (cap4 S) (cap4 S) (fun p i j => Qc_eq_bool (m (TExxi p i j)) (sp (TExxi p i j))).
 
 (* the accumulators as the state of Model/Template.v *)
 Definition tstate (S P : nat) (sp : tcell -> Qc) : Template.st :=
@@ -555,8 +562,8 @@ Definition tobs_ok (c : tcase) (S P : nat) (ex : bool) (bs : list tbatch) (o : t
   let brows := map (fun r => (nth 0 (snd r) 0, map (scale_q e) (fst r))) rows in
   let tol := (kfac n * uq (tc_prec c))%Qc in
   negb (match to_runs o with [] => true | _ => false end)
-  && forallb (fun r => Nat.eqb (length (kr_choices r)) (length bs) && list_eqb Bool.eqb (kr_log r) (kr_choices r)
-                       && tmodel_is_spec S P (kr_choices r) bs) (to_runs o)
+  && forallb (fun r => Nat.eqb (length (kr_choices r)) (length bs) && list_eqb Bool.eqb (kr_log r) (kr_choices r)) (to_runs o)
+  && forallb (fun cs => tmodel_is_spec S P cs bs) (distinct_choices (to_runs o))
   && shape2 (to_templates o) P S && shape2 (to_cov o) S S
   (* the accumulators read through _compute = class means and pooled covariance by definition (Model/Template.v) *)
   && Template.mat_eqb P S (Template.spec_templates parts S brows) (fst TC)
@@ -593,4 +600,16 @@ Definition tcase_expected (c : tcase) : bool * list (list Q) * list (list Q) :=
       let bs := map (tbatch_of (tc_exp c) (tc_parts c)) (tc_batches c) in
       let TC := Template.comp (tc_parts c) S (tstate S P (tspec_total S P idq bs)) in
       (exact_regime (tc_prec c) (tc_batches c), map (map this) (fst TC), map (map this) (snd TC))
+  end.
+
+(* --------------------------------------------------------------- one case type for the harness *)
+Inductive kcase := KP (c : pcase) | KT (c : tcase).
+Definition kcase_check (c : kcase) : bool := match c with KP c => pcase_check c | KT c => tcase_check c end.
+Inductive kexpected :=
+| EP (exact : bool) (counters : list (list Q)) (sum_sumsq : list (list (list (Q * Q))))
+| ET (exact : bool) (templates cov : list (list Q)).
+Definition kcase_expected (c : kcase) : kexpected :=
+  match c with
+  | KP c => let '(ex, cn, ss) := pcase_expected c in EP ex cn ss
+  | KT c => let '(ex, t, cv) := tcase_expected c in ET ex t cv
   end.
